@@ -1,0 +1,109 @@
+//go:build verif
+
+package api
+
+// Contracts for govc (see /verif/DESIGN.md). Comment-only file: no executable code.
+
+// C19: every handler answers exactly once; it performs exactly the runner operation of its route with the
+// request's parameters; a runner error becomes 400 with an error body, success becomes 200 with the runner's
+// result; a path parameter that is not a number is answered with 400 WITHOUT calling the runner.
+
+//@ func (api *PcApi) GetProcess
+//@   ensures one-response: responses(c) == old(responses(c)) + 1
+//@   ensures delegated: opCalls() == old(opCalls()) + 1 && lastOp() == "GetProcessState" && lastOpName() == paramOf(c, "name")
+//@   ensures error-is-400: lastOpErr() != nil ==> lastStatus(c) == 400
+//@   ensures ok-is-200: lastOpErr() == nil ==> lastStatus(c) == 200 && lastBody(c) == boxed(resGetProcessState())
+//@ func (api *PcApi) GetProcessInfo
+//@   ensures one-response: responses(c) == old(responses(c)) + 1
+//@   ensures delegated: opCalls() == old(opCalls()) + 1 && lastOp() == "GetProcessInfo" && lastOpName() == paramOf(c, "name")
+//@   ensures error-is-400: lastOpErr() != nil ==> lastStatus(c) == 400
+//@   ensures ok-is-200: lastOpErr() == nil ==> lastStatus(c) == 200 && lastBody(c) == boxed(resGetProcessInfo())
+//@ func (api *PcApi) GetProcesses
+//@   ensures one-response: responses(c) == old(responses(c)) + 1
+//@   ensures delegated: opCalls() == old(opCalls()) + 1 && lastOp() == "GetProcessesState"
+//@   ensures error-is-400: lastOpErr() != nil ==> lastStatus(c) == 400
+//@   ensures ok-is-200: lastOpErr() == nil ==> lastStatus(c) == 200 && lastBody(c) == boxed(resGetProcessesState())
+//@ func (api *PcApi) StopProcess
+//@   ensures one-response: responses(c) == old(responses(c)) + 1
+//@   ensures delegated: opCalls() == old(opCalls()) + 1 && lastOp() == "StopProcess" && lastOpName() == paramOf(c, "name")
+//@   ensures error-is-400: lastOpErr() != nil ==> lastStatus(c) == 400
+//@   ensures ok-is-200: lastOpErr() == nil ==> lastStatus(c) == 200
+//@ func (api *PcApi) StartProcess
+//@   ensures one-response: responses(c) == old(responses(c)) + 1
+//@   ensures delegated: opCalls() == old(opCalls()) + 1 && lastOp() == "StartProcess" && lastOpName() == paramOf(c, "name")
+//@   ensures error-is-400: lastOpErr() != nil ==> lastStatus(c) == 400
+//@   ensures ok-is-200: lastOpErr() == nil ==> lastStatus(c) == 200
+//@ func (api *PcApi) RestartProcess
+//@   ensures one-response: responses(c) == old(responses(c)) + 1
+//@   ensures delegated: opCalls() == old(opCalls()) + 1 && lastOp() == "RestartProcess" && lastOpName() == paramOf(c, "name")
+//@   ensures error-is-400: lastOpErr() != nil ==> lastStatus(c) == 400
+//@   ensures ok-is-200: lastOpErr() == nil ==> lastStatus(c) == 200
+//@ func (api *PcApi) GetProcessPorts
+//@   ensures one-response: responses(c) == old(responses(c)) + 1
+//@   ensures delegated: opCalls() == old(opCalls()) + 1 && lastOp() == "GetProcessPorts" && lastOpName() == paramOf(c, "name")
+//@   ensures error-is-400: lastOpErr() != nil ==> lastStatus(c) == 400
+//@   ensures ok-is-200: lastOpErr() == nil ==> lastStatus(c) == 200 && lastBody(c) == boxed(resGetProcessPorts())
+//@ func (api *PcApi) GetProcessLogs
+//@   ensures one-response: responses(c) == old(responses(c)) + 1
+//@   ensures bad-offset: !atoiOk(paramOf(c, "endOffset")) ==> lastStatus(c) == 400 && opCalls() == old(opCalls())
+//@   ensures bad-limit: !atoiOk(paramOf(c, "limit")) ==> lastStatus(c) == 400 && opCalls() == old(opCalls())
+//@   ensures delegated: atoiOk(paramOf(c, "endOffset")) && atoiOk(paramOf(c, "limit")) ==> opCalls() == old(opCalls()) + 1 && lastOp() == "GetProcessLog" && lastOpName() == paramOf(c, "name") && lastOpInt1() == atoiVal(paramOf(c, "endOffset")) && lastOpInt2() == atoiVal(paramOf(c, "limit"))
+//@   ensures error-is-400: opCalls() > old(opCalls()) && lastOpErr() != nil ==> lastStatus(c) == 400
+//@   ensures ok-is-200: opCalls() > old(opCalls()) && lastOpErr() == nil ==> lastStatus(c) == 200
+//@ func (api *PcApi) ScaleProcess
+//@   ensures one-response: responses(c) == old(responses(c)) + 1
+//@   ensures bad-scale: !atoiOk(paramOf(c, "scale")) ==> lastStatus(c) == 400 && opCalls() == old(opCalls())
+//@   ensures delegated: atoiOk(paramOf(c, "scale")) ==> opCalls() == old(opCalls()) + 1 && lastOp() == "ScaleProcess" && lastOpName() == paramOf(c, "name") && lastOpInt1() == atoiVal(paramOf(c, "scale"))
+//@   ensures error-is-400: opCalls() > old(opCalls()) && lastOpErr() != nil ==> lastStatus(c) == 400
+//@   ensures ok-is-200: opCalls() > old(opCalls()) && lastOpErr() == nil ==> lastStatus(c) == 200
+// batch operations: malformed body => 400 without calling the runner; total failure => 400; partial => 207 with the per-name map
+//@ func (api *PcApi) StopProcesses
+//@   ensures one-response: responses(c) == old(responses(c)) + 1
+//@   ensures at-most-one-op: opCalls() <= old(opCalls()) + 1
+//@   ensures not-called-is-400: opCalls() == old(opCalls()) ==> lastStatus(c) == 400
+//@   ensures called: opCalls() > old(opCalls()) ==> lastOp() == "StopProcesses"
+//@   ensures total-failure: opCalls() > old(opCalls()) && lastOpErr() != nil && len(resStopProcesses()) == 0 ==> lastStatus(c) == 400
+//@   ensures partial: opCalls() > old(opCalls()) && lastOpErr() != nil && len(resStopProcesses()) != 0 ==> lastStatus(c) == 207 && lastBody(c) == boxed(resStopProcesses())
+//@   ensures ok-is-200: opCalls() > old(opCalls()) && lastOpErr() == nil ==> lastStatus(c) == 200 && lastBody(c) == boxed(resStopProcesses())
+//@ func (api *PcApi) UpdateProject
+//@   ensures one-response: responses(c) == old(responses(c)) + 1
+//@   ensures at-most-one-op: opCalls() <= old(opCalls()) + 1
+//@   ensures not-called-is-400: opCalls() == old(opCalls()) ==> lastStatus(c) == 400
+//@   ensures called: opCalls() > old(opCalls()) ==> lastOp() == "UpdateProject"
+//@   ensures total-failure: opCalls() > old(opCalls()) && lastOpErr() != nil && len(resUpdateProject()) == 0 ==> lastStatus(c) == 400
+//@   ensures partial: opCalls() > old(opCalls()) && lastOpErr() != nil && len(resUpdateProject()) != 0 ==> lastStatus(c) == 207 && lastBody(c) == boxed(resUpdateProject())
+//@   ensures ok-is-200: opCalls() > old(opCalls()) && lastOpErr() == nil ==> lastStatus(c) == 200 && lastBody(c) == boxed(resUpdateProject())
+//@ func (api *PcApi) ReloadProject
+//@   ensures one-response: responses(c) == old(responses(c)) + 1
+//@   ensures delegated: opCalls() == old(opCalls()) + 1 && lastOp() == "ReloadProject"
+//@   ensures total-failure: lastOpErr() != nil && len(resReloadProject()) == 0 ==> lastStatus(c) == 400
+//@   ensures partial: lastOpErr() != nil && len(resReloadProject()) != 0 ==> lastStatus(c) == 207 && lastBody(c) == boxed(resReloadProject())
+//@   ensures ok-is-200: lastOpErr() == nil ==> lastStatus(c) == 200 && lastBody(c) == boxed(resReloadProject())
+//@ func (api *PcApi) UpdateProcess
+//@   ensures one-response: responses(c) == old(responses(c)) + 1
+//@   ensures at-most-one-op: opCalls() <= old(opCalls()) + 1
+//@   ensures not-called-is-400: opCalls() == old(opCalls()) ==> lastStatus(c) == 400
+//@   ensures error-is-400: opCalls() > old(opCalls()) && lastOpErr() != nil ==> lastStatus(c) == 400
+//@   ensures ok-is-200: opCalls() > old(opCalls()) && lastOpErr() == nil ==> lastStatus(c) == 200 && lastOp() == "UpdateProcess"
+//@ func (api *PcApi) ShutDownProject
+//@   ensures one-response: responses(c) == old(responses(c)) + 1 && lastStatus(c) == 200
+//@   ensures delegated: opCalls() == old(opCalls()) + 1 && lastOp() == "ShutDownProject"
+//@ func (api *PcApi) GetProjectState
+//@   ensures one-response: responses(c) == old(responses(c)) + 1
+//@   ensures delegated: opCalls() == old(opCalls()) + 1 && lastOp() == "GetProjectState"
+//@   ensures ok-is-200: lastOpErr() == nil ==> lastStatus(c) == 200 && lastBody(c) == boxed(resGetProjectState())
+//@   ensures error-status: lastOpErr() != nil ==> lastStatus(c) == 500
+//@ func (api *PcApi) IsAlive
+//@   ensures one-response: responses(c) == old(responses(c)) + 1 && lastStatus(c) == 200 && opCalls() == old(opCalls())
+
+// C18 / C19: websocket log streams. The per-stream writer is the only consumer of the stream's channel: it is
+// running before the subscription pushes the tail into that channel, and it never returns holding the mutex that
+// serialises writes to the sockets (all streams of the server share it).
+//@ func (api *PcApi) handleLog
+//@   requires !held(api.wsMtx)
+//@   spawnsets consumed(boxed(connector)) := true
+//@   ensures lock-released: !held(api.wsMtx)
+//@   loop 1 invariant !held(api.wsMtx)
+//@ func (api *PcApi) HandleLogsStream
+//@   requires !held(api.wsMtx)
+//@   loop 1 invariant !held(api.wsMtx) && idx >= -1
